@@ -104,8 +104,11 @@ module Wrap = struct
     { a_val = parse_val (String.sub t 0 i); a_err = parse_err (String.sub t (i + 1) (j - i - 1));
       a_obj = if o = "-" then None else Some (nat_of_int (int_of_string o)) }
 
+  (* zero values that accompany an error are not observable (the harness prints them as "u" too) *)
   let show_ans (a : ans) : string =
-    show_val a.a_val ^ "!" ^ show_err a.a_err ^ "@" ^ (match a.a_obj with None -> "-" | Some n -> string_of_int (int_of_nat n))
+    let v = show_val a.a_val in
+    let v = if a.a_err <> None && List.mem v ["u"; "t"; "i0"; "b"; "n[]"; "e[]"] then "u" else v in
+    v ^ "!" ^ show_err a.a_err ^ "@" ^ (match a.a_obj with None -> "-" | Some n -> string_of_int (int_of_nat n))
 
   (* the scripted base *)
   type bcall = { bo : int; bm : meth; ba : arg list; bans : ans }
@@ -151,7 +154,24 @@ module Wrap = struct
 
   let no_prog : comp -> arg list -> prog = fun _ _ -> PRet { a_val = VUnit; a_err = Some (EStuck (n_of_int 2)); a_obj = None }
 
-  let extra_tables = Stdlib.ref ([] : (string * (string -> table * ffun option * (comp -> arg list -> prog))) list)
+  let bad_pattern : werr = EOther (str_of_string ("X" ^ strhex "*errors.errorString:syntax error in pattern"))
+  let fuel = nat_of_int 10000
+
+  (* the composites of FailFS for one call: MkdirTemp's random names are canonicalised to
+     <dir>/<prefix>#<suffix> by the harness, so every attempt has the same printed name *)
+  let failfs_prog (m : string) (args : arg list) : comp -> arg list -> prog =
+    let tmp = match m, args with
+      | "V.MkdirTemp", [AS dir; AS pat] ->
+          let d = string_of_str dir and p = string_of_str pat in
+          let (pre, suf) = (match String.rindex_opt p '*' with
+            | Some i -> (String.sub p 0 i, String.sub p (i + 1) (String.length p - i - 1))
+            | None -> (p, "")) in
+          let sep = if d <> "" && d.[String.length d - 1] = '/' then "" else "/" in
+          str_of_string (d ^ sep ^ pre ^ "#" ^ suf)
+      | _ -> [] in
+    comp_prog (fun _ -> tmp) bad_pattern fuel
+
+  let extra_tables = Stdlib.ref ([] : (string * (string -> table * ffun option * (string -> arg list -> comp -> arg list -> prog))) list)
 
   let run () =
     iter_lines (fun line ->
@@ -160,7 +180,7 @@ module Wrap = struct
           (match split_ws hd with
            | [kind; _; _; plan] ->
                let (tbl, ffo, cprog) =
-                 if kind = "rofs" then (rofs_table, None, no_prog)
+                 if kind = "rofs" then (rofs_table, None, (fun _ _ -> no_prog))
                  else (List.assoc kind !extra_tables) plan in
                let ff = match ffo with Some f -> f | None -> plan_ff plan in
                let w = Stdlib.ref { w_base = { script = []; direct = None; bad = false };
@@ -191,14 +211,20 @@ module Wrap = struct
                           let w0 = { !w with w_base = { script; direct; bad = false } } in
                           let c = { c_obj = nat_of_int (int_of_string (tail o)); c_meth = mt; c_args = cargs;
                                     c_bind = nat_of_int (int_of_string bind) } in
-                          let (r, w1) = wstep base_step tbl ff cprog w0 c in
+                          let (r, w1) = wstep base_step tbl ff (cprog m cargs) w0 c in
                           w := w1;
                           let x = if w1.w_base.bad then "mismatch"
                             else if w1.w_base.script <> [] then Printf.sprintf "extra%d" (List.length w1.w_base.script)
                             else "ok" in
                           let rtxt = (match bclass mt cargs with CConfig -> "cfg" | _ -> show_ans r.r_ans) in
-                          Printf.sprintf "r=%s c=%s x=%s" rtxt
-                            (String.concat "," (List.map (fun (f, failed) -> fn_name f ^ (if failed then "*" else "")) r.r_cons)) x
+                          (* a composite that returned nil although a primitive inside it was failed *)
+                          let failed = List.filter_map (fun (f, b) -> if b then Some (fn_name f) else None) r.r_cons in
+                          let composite = List.mem m ["V.Create"; "V.WriteFile"; "V.ReadFile"; "V.ReadDir"; "V.Glob"; "V.MkdirTemp"] in
+                          let own_first = (match r.r_cons with (f, true) :: _ -> "V." ^ String.sub (fn_name f) 2 (String.length (fn_name f) - 2) = m | _ -> false) in
+                          let swallow = if composite && failed <> [] && not own_first && r.r_ans.a_err = None && plan <> "ro"
+                            then " SWALLOW:" ^ String.sub m 2 (String.length m - 2) ^ ":" ^ String.concat "+" failed else "" in
+                          Printf.sprintf "r=%s c=%s x=%s%s" rtxt
+                            (String.concat "," (List.map (fun (f, failed) -> fn_name f ^ (if failed then "*" else "")) r.r_cons)) x swallow
                       | _ -> "BADOP")
                  | [] -> "BADOP") ops in
                print_endline (String.concat " | " ("ok" :: outs))
@@ -206,4 +232,9 @@ module Wrap = struct
       | [] -> print_endline "BADLINE")
 end
 
-let () = Conv.register "wrap" Wrap.run
+let () =
+  Wrap.extra_tables := [("failfs", fun plan ->
+    (Model.failfs_table,
+     (if plan = "ro" then Some (Model.readonly_func Model.ro_cases Model.ro_default) else None),
+     Wrap.failfs_prog))];
+  Conv.register "wrap" Wrap.run
